@@ -571,6 +571,6 @@ func CheckC03(c *C03Case, st *Stats) error {
 
 func init() {
 	Register("C03",
-		"grammar-directed generation of RFC 8259 documents with array/object root: every whitespace position, per-character spelling choice (raw, short escape incl. \\/, \\uXXXX in upper/lower/mixed hex, surrogate-pair escapes), number spellings (canonical, -0, beyond-int64 integers, fractions with trailing zeros, e/E exponents with +/-/none and leading zeros, 17-digit), duplicate keys, empty containers, deep chains; expected tree known by construction and cross-checked against a strict scanner and encoding/json on every case. Thorough adds coverage-guided fuzzing of the generator and of raw bytes filtered to valid documents. One case in 2500 is a flat array or object of 9999-20000 copies of a small record. Non-trivial = document uses an escape other than \\\" \\\\ \\n, a non-canonical number spelling, inter-token whitespace, a duplicate key, nesting >= 2 or a raw non-ASCII character. Distinct = distinct FNV-64a hash of the case JSON. One case in six first hands both parsers the document cut at a drawn byte (a failed parse) before the whole document is parsed.",
+		"grammar-directed generation of RFC 8259 documents with array/object root: every whitespace position, per-character spelling choice (raw, short escape incl. \\/, \\uXXXX in upper/lower/mixed hex, surrogate-pair escapes), number spellings (canonical, -0, beyond-int64 integers, fractions with trailing zeros, e/E exponents with +/-/none and leading zeros, 17-digit), duplicate keys, empty containers, deep chains; expected tree known by construction and cross-checked against a strict scanner and encoding/json on every case. Thorough adds coverage-guided fuzzing of the generator and of raw bytes filtered to valid documents. One case in 2500 is a flat array or object of 9999-20000 copies of a small record. Non-trivial = document uses an escape other than \\\" \\\\ \\n, a non-canonical number spelling, inter-token whitespace, a duplicate key, nesting >= 2 or a raw non-ASCII character. Distinct = distinct FNV-64a hash of the case JSON. One case in six first hands both parsers the document cut at a drawn byte (a failed parse) before the whole document is parsed. One case in forty repeats one record text 2-5 times in a document; every array and object of the text must be a container instance of its own in the result.",
 		GenC03, CheckC03)
 }
